@@ -39,6 +39,11 @@ type UMsg struct {
 	Delay time.Duration
 	Sub   *UMsg
 	Spec  *Spec
+	// cRespond: the K replies are sent from K separate goroutines
+	Scatter bool
+	// cPanic: the panic value is an *actor.InternalError (restart that does not
+	// use up the restart budget)
+	Internal bool
 }
 
 func (m *UMsg) String() string {
@@ -49,6 +54,9 @@ func (m *UMsg) String() string {
 	switch m.Op {
 	case cPanic:
 		s += "!panic"
+		if m.Internal {
+			s += "(InternalError)"
+		}
 	case cSpawnChild:
 		s += "!spawn:" + m.Name
 	case cSend:
@@ -111,6 +119,8 @@ type Delivery struct {
 	MW       []string // middleware trace around this delivery: "in0","in1","recv","out1","out0"
 	SimTime  int64
 	Task     int
+	// for Stopped deliveries: children found registered at that moment
+	ChildrenStillRegistered []string
 }
 
 // Info is the harness view of one logical actor (one id).
@@ -390,6 +400,13 @@ func (s *scripted) Receive(c *actor.Context) {
 			panic(fmt.Sprintf("scripted crash in Started of %s inc %d", in.ID, s.inc))
 		}
 	case dStopped:
+		// every child must be gone from the registry by the time its parent
+		// handles Stopped
+		for _, ch := range spec.Children {
+			if c.Engine().Registry.GetPID(kindOf(ch.FullID()), idOf(ch.FullID())) != nil {
+				d.ChildrenStillRegistered = append(d.ChildrenStillRegistered, ch.FullID())
+			}
+		}
 		if spec.PanicStopped[s.inc] {
 			simrt.Fault("actor-crash-in-Stopped")
 			panic(fmt.Sprintf("scripted crash in Stopped of %s inc %d", in.ID, s.inc))
@@ -403,6 +420,10 @@ func (s *scripted) obey(c *actor.Context, m *UMsg) {
 	env, in := s.env, s.in
 	switch m.Op {
 	case cPanic:
+		if m.Internal {
+			simrt.Fault("actor-crash-InternalError")
+			panic(&actor.InternalError{From: fmt.Sprintf("scripted crash on %s in %s inc %d", m, in.ID, s.inc), Err: fmt.Errorf("scripted")})
+		}
 		simrt.Fault("actor-crash-in-Receive")
 		panic(fmt.Sprintf("scripted crash on %s in %s inc %d", m, in.ID, s.inc))
 	case cSpawnChild:
@@ -426,6 +447,20 @@ func (s *scripted) obey(c *actor.Context, m *UMsg) {
 	case cRespond:
 		if m.Delay > 0 {
 			simrt.Sleep(m.Delay)
+		}
+		if m.Scatter && c.Sender() != nil {
+			// the replies come from several goroutines (a front actor that fans a
+			// request out to workers which all answer the original sender)
+			to, eng := c.Sender(), c.Engine()
+			for i := 0; i < m.K; i++ {
+				i := i
+				simrt.Go("replier", func() {
+					env.ev("respond", in.ID, pidStr(to), m, i)
+					eng.Send(to, &Reply{Req: m.ID, I: i, By: in.ID})
+					env.ev("respond-ret", in.ID, pidStr(to), m, i)
+				})
+			}
+			break
 		}
 		for i := 0; i < m.K; i++ {
 			env.ev("respond", in.ID, pidStr(c.Sender()), m, i)
